@@ -1,6 +1,7 @@
 package checks
 
 import (
+	"context"
 	"encoding/json"
 	"fmt"
 	"strings"
@@ -108,7 +109,9 @@ func c08Step(s *app.Session, in string, mode string) (sig, msg, key string) {
 			return "session-cannot-be-loaded", fmt.Sprintf("after input %q: stored session unreadable: %v", short(in), err), ""
 		}
 		key = app.StateKey(st, ca)
-		if s.St != nil && key != app.StateKey(s.St, s.Ca) && r.FinishErr == "" {
+		// (a request that fails inside the engine's initialisation - a failing first function - is not saved: the stored
+		// record is the one of the previous request, and there is nothing to compare it with)
+		if s.St != nil && key != app.StateKey(s.St, s.Ca) && r.FinishErr == "" && !(s.First != nil && r.ExecErr != "") {
 			return "snapshot-differs-from-session", fmt.Sprintf("after input %q: stored %s, in memory %s", short(in), key, app.StateKey(s.St, s.Ca)), ""
 		}
 		if sg, m := c08Invariants(st, ca); sg != "" {
@@ -224,6 +227,32 @@ func c08Directed(kind string) (string, string) {
 				}
 			}
 		}
+	case "first-function-fails":
+		// the engine's first function (WithFirst) fails on one request of the session - a lookup that is down for a
+		// moment - and works again afterwards: the request may fail, the session must stay usable
+		a := app.New("firstfails")
+		a.Node("root", "root", codec.Ins{Op: codec.HALT}, codec.Ins{Op: codec.INCMP, Sym: "aa", Sel: "1"})
+		a.Node("aa", "aa", codec.Ins{Op: codec.HALT}, codec.Ins{Op: codec.INCMP, Sym: "bb", Sel: "1"}, codec.Ins{Op: codec.INCMP, Sym: "_", Sel: "0"})
+		a.Node("bb", "bb", codec.Ins{Op: codec.HALT}, codec.Ins{Op: codec.INCMP, Sym: "_", Sel: "0"})
+		a.Node("_catch", "catch", codec.Ins{Op: codec.HALT}, codec.Ins{Op: codec.INCMP, Sym: "_", Sel: "*"})
+		for _, mode := range []string{"persisted", "long-lived"} {
+			for failAt := 0; failAt < 5; failAt++ {
+				s := newSess(a, mode, engine.Config{})
+				n := 0
+				s.First = func(ctx context.Context, sym string, input []byte) (resource.Result, error) {
+					n++
+					if n-1 == failAt {
+						return resource.Result{}, fmt.Errorf("lookup failed")
+					}
+					return resource.Result{}, nil
+				}
+				for k, in := range []string{"", "1", "1", "0", "zz", "0", "1"} {
+					if sig, msg, _ := c08Step(s, in, mode); sig != "" {
+						return sig + "-after-failed-first-function", fmt.Sprintf("%s, first function fails on its call %d, request %d: %s", mode, failAt, k, msg)
+					}
+				}
+			}
+		}
 	case "browse-300":
 		g := c02Cfg{Rows: []string{"aaa", "bbb", "ccc", "ddd"}, Tpl: 0, Next: true, Prev: true, Size: 14}
 		a := c02App(g)
@@ -285,7 +314,7 @@ func c08Run(c *mc.Ctx) {
 	apps := corpus()
 	c.Note("corpus_apps", fmt.Sprint(len(apps)))
 	c.Note("corpus_skipped_ill_formed", strings.Join(corpusSkipped, " | "))
-	for _, kind := range []string{"descents-130", "descents-130-first", "descents-130-loadfail", "unblocked-by-client", "browse-300", "result-70000"} {
+	for _, kind := range []string{"descents-130", "descents-130-first", "descents-130-loadfail", "unblocked-by-client", "first-function-fails", "browse-300", "result-70000"} {
 		if !c.Mine() {
 			continue
 		}
